@@ -266,6 +266,17 @@ end Stw
 
 /-! ## Thread pool -/
 
+/-- indices of the threads blocked in pthread_cond_wait that no signal has reached yet -/
+def waitersOf (ws : List WPc) : List Nat := (List.range ws.length).filter fun k => ws.getD k .exited = .wait false
+
+/-- pthread_cond_signal: one of the unsignalled waiters (chosen by `sel`) becomes signalled -/
+def signalOne (ws : List WPc) (sel : Nat) : List WPc × Option Nat :=
+  let wl := waitersOf ws
+  if wl = [] then (ws, none)
+  else
+    let k := wl.getD (sel % wl.length) 0
+    (setAt ws k (.wait true), some k)
+
 structure Tp where
   v : Variant := {}
   nthreads : Nat
@@ -297,7 +308,7 @@ def client (s : Tp) (i : Nat) : CPc := s.clients.getD i .idle
 def worker (s : Tp) (k : Nat) : WPc := s.ws.getD k .exited
 
 /-- indices of the workers blocked in pthread_cond_wait that no signal has reached yet -/
-def waiters (s : Tp) : List Nat := (List.range s.ws.length).filter fun k => s.worker k = .wait false
+def waiters (s : Tp) : List Nat := waitersOf s.ws
 
 def ret (s : Tp) (i : Nat) (rc : Rc) : Tp × List Ev :=
   ({ s with clients := setAt s.clients i .idle }, [.ret i rc false])
@@ -348,12 +359,8 @@ def clientStep (s : Tp) (i : Nat) (sel : Nat) : Tp × List Ev :=
                       threads := if s.v.tpRegisterOverflow then s.threads ++ [s.ws.length] else s.threads },
              [Ev.spawn s.ws.length])
           else (s, [])
-        let wl := s.waiters
-        let (s, ev2) :=
-          if wl = [] then (s, [Ev.signal none])
-          else
-            let k := wl.getD (sel % wl.length) 0
-            ({ s with ws := setAt s.ws k (.wait true) }, [Ev.signal (some k)])
+        let (ws', woken) := signalOne s.ws sel
+        let (s, ev2) := ({ s with ws := ws' }, [Ev.signal woken])
         let (s, ev3) := s.ret i .ok
         (s, ev1 ++ ev2 ++ ev3)
     | .shutdown wait =>
